@@ -284,6 +284,12 @@ def run(ctx):
         first = (beh, p23)
         states += r["distinct"]; trans += n
         acc(*replay(ctx, beh, p23, "cover2x3"))
+        # the same cover across the 180th meridian (the search rectangle wraps there), everything-pattern only
+        tam, pam = grid("coverAM", G_AM, 2, 3)
+        r, beh2, n = bfs(ctx, "coverAM", tam, IDS3, ["*"])
+        states += r["distinct"]; trans += n
+        acc(*replay(ctx, beh2, pam, "coverAM"))
+        os.remove(beh2)
     else:
         t33, p33 = grid("g3x3", G_PHX, 3, 3)
         r, beh, n = bfs(ctx, "cover3x3", t33, IDS3, pats3, timeout=2400)
